@@ -49,6 +49,20 @@ Theorem C11_sample_writer_metadata_read : forall enc_block md5 p,
     Ok (FlacMeta.Blocks.BStreaminfo (convM (f_si f)) :: map convB (f_blocks f)) /\
   Forall plain (f_blocks f) /\ (seektables (f_blocks f) <= 1)%nat.
 Proof. intros enc_block md5 p H1 H2. exact (sample_writer_metadata_read enc_block md5 H1 H2 p). Qed.
+(* ... in full: the finished file IS the metadata area's serialisation of typed, canonical values, then the frames
+   (the form in which coq/e2eupd hands the written file to the update theorems of C10) *)
+Theorem C11_sample_writer_file_typed : forall enc_block md5 p,
+  (forall l, length (md5 l) = 16%nat) -> (forall l, Forall (fun b => b < 256) (md5 l)) ->
+  forall (u : list N -> bool) o rate bps ch total w chunks f,
+  options_wf o -> Forall plain (o_metadata o) -> seektables (o_metadata o) = 0%nat ->
+  sample_new p [] o rate bps ch total = Ok w ->
+  sample_run enc_block md5 p w chunks = Ok f -> counters_fit (f_enc f) ->
+  exists meta',
+    f_stream f = meta' ++ frames_bytes (f_enc f) /\
+    FlacMeta.BlockList.write_blocks (FlacMeta.Blocks.BStreaminfo (convM (f_si f)) :: map convB (f_blocks f)) = Ok meta' /\
+    Forall (FlacMeta.Blocks_level.ty_block u) (FlacMeta.Blocks.BStreaminfo (convM (f_si f)) :: map convB (f_blocks f)) /\
+    Forall FlacMeta.Blocks_level.canon_block (FlacMeta.Blocks.BStreaminfo (convM (f_si f)) :: map convB (f_blocks f)).
+Proof. intros enc_block md5 p H1 H2. exact (sample_writer_file_typed enc_block md5 H1 H2 p). Qed.
 Example C11_presets_qualify :
   Forall plain (o_metadata options_default) /\ seektables (o_metadata options_default) = 0%nat /\
   Forall plain (o_metadata options_fast) /\ seektables (o_metadata options_fast) = 0%nat /\
